@@ -402,9 +402,11 @@ def monthLoop : List Nat → Nat → Nat → Nat × Nat
   | [], m, r => (m, r)
   | l :: ls, m, r => if r < l then (m, r) else monthLoop ls (m + 1) (r - l)
 
-/-- `days_to_ymd` (the year is a `u32` in Rust; the model is exact for days < 366·2^32) -/
+/-- `days_to_ymd`: whole 400-year cycles (146 097 days) are skipped first, then the year loop
+    runs from `1970 + 400·cycles` on the remaining `days % 146097` days — at most 400 iterations
+    (the fuel is never exhausted). The year is a `u64` in Rust: exact for every `u64` input. -/
 def daysToYmd (days : Nat) : Nat × Nat × Nat :=
-  let (y, r) := yearLoop (days / 365 + 1) 1970 days
+  let (y, r) := yearLoop 401 (1970 + 400 * (days / 146097)) (days % 146097)
   let (m, r') := monthLoop (monthLens y) 1 r
   (y, m, r' + 1)
 
